@@ -18,6 +18,9 @@ type AggrPlanField struct {
 	FuncExprs []*FunctionCallExpr
 	Funcs     []AggrFunction
 	Value     Column
+	// first is the first pair of the group: what is not an aggregate in an
+	// aggregate field (a group by value) is evaluated on it
+	first KVPair
 }
 
 type AggregatePlan struct {
@@ -318,6 +321,7 @@ func (a *AggregatePlan) createAggrRow(kvp KVPair, ctx *ExecuteCtx) ([]*AggrPlanF
 			Expr:      r.Expr,
 			FuncExprs: r.FuncExprs,
 			Funcs:     nil,
+			first:     kvp,
 		}
 		if len(r.Funcs) > 0 {
 			for _, f := range r.Funcs {
@@ -432,11 +436,13 @@ func (a *AggregatePlan) batch(ctx *ExecuteCtx) ([][]Column, error) {
 		if err = a.completeAggrFuncs(aggrRow); err != nil {
 			return nil, err
 		}
+		// all fields of the row were created from the group's first pair
+		first := aggrRow[0].first
 		for i, col := range aggrRow {
 			if col.IsKey {
 				row[i] = col.Value
 			} else {
-				row[i], err = col.Expr.Execute(NewKVP(nil, nil), ctx)
+				row[i], err = col.Expr.Execute(first, ctx)
 				if err != nil {
 					return nil, err
 				}
@@ -501,11 +507,13 @@ func (a *AggregatePlan) next(ctx *ExecuteCtx) ([]Column, error) {
 	if err = a.completeAggrFuncs(aggrRow); err != nil {
 		return nil, err
 	}
+	// all fields of the row were created from the group's first pair
+	first := aggrRow[0].first
 	for i, col := range aggrRow {
 		if col.IsKey {
 			row[i] = col.Value
 		} else {
-			row[i], err = col.Expr.Execute(NewKVP(nil, nil), ctx)
+			row[i], err = col.Expr.Execute(first, ctx)
 			if err != nil {
 				return nil, err
 			}
